@@ -160,17 +160,7 @@ def main():
         die('pattern stop_bit: unknown type %s' % ty)
     stop_shift = SIZEOF[ty] * int(bits_per_byte) - int(minus)
     (ishift,) = one('index_bit', r'^constexpr std::uint16_t index_bit = stop_bit >> (\d+);', d, DEC)
-    # the decoder's loop shapes (the model mirrors them)
-    one('decode_while', r'^\s*\*cls\.static_vptr = decode_iter - first_slot;\s*\n\s*while \(!last\) \{', d, DEC)
-    one('decode_fetch', r'auto code = \*encode_iter\+\+;\s*\n\s*last = code & stop_bit;\s*\n\s*return code & ~stop_bit;', d, DEC)
-    one('decode_fetch_assert', r'BOOST_ASSERT\(\(char\*\)\(encode_iter \+ 1\) >= \(char\*\)decode_iter\);', d, DEC)
-    one('decode_index_test', r'if \(code & index_bit\) \{\s*\n\s*auto index = code & ~index_bit;', d, DEC)
-    one('decode_skip_done', r'if \(\*cls\.static_vptr != nullptr\) \{\s*\n\s*continue;', d, DEC)
-    one('decode_specs_tail', r'\*specs\+\+ = \(uintptr_t\)method\.ambiguous;\s*\n\s*\*specs\+\+ = \(uintptr_t\)method\.not_implemented;', d, DEC)
-    one('decode_dtbl_loop', r'while \(more\) \{\s*\n\s*more = !\(\*dtbl_iter & stop_bit\);\s*\n\s*auto spec_index = \*dtbl_iter & ~stop_bit;', d, DEC)
-    one('decode_publish_once', r'return r\.info->type == cls\.type;', d, DEC)
-    one('decode_publish_records', r'Policy::publish_vptrs\(records\.begin\(\), records\.end\(\)\);', d, DEC)
-    one('decode_ss_count', r'auto slots_strides_count = 2 \* method\.arity\(\) - 1;', d, DEC)
+    # the decoder's control flow is translated (translators/decoder.py -> Gen/GenDec.v), not anchored here
 
     # ---- generator.hpp: cell sizes and the emitted struct
     (dty,) = one('decode_size', r'^\s*const auto decode_size = sizeof\((\w+)\);', g, GEN)
